@@ -20,9 +20,9 @@ func init() {
 		Assumptions: []string{"parents are well-formed non-modular genomes with common ancestry and equal trait counts (family members)"},
 		Cases: func(tier string) int {
 			if tier == "quick" {
-				return 160
+				return 3200
 			}
-			return 1600
+			return 16000
 		},
 		Run: runC04,
 		Required: []string{"matings.mate_multipoint", "matings.mate_multipoint_avg", "matings.mate_singlepoint", "pattern.matching",
